@@ -31,9 +31,18 @@ def interp_exact(fx, fy, z: F):
 
 @st.composite
 def _pl_cases(draw):
-    mode = draw(st.sampled_from(["grid", "grid", "float"]))
+    mode = draw(st.sampled_from(["grid", "grid", "float", "narrow-int"]))
     n = draw(st.integers(1, 9))
-    if mode == "grid":
+    x_dtype = None
+    if mode == "narrow-int":
+        # sample points held in a narrow signed integer type, spread over its whole range (gaps wider
+        # than the type's maximum)
+        x_dtype = draw(st.sampled_from(["int8", "int16", "int64"]))
+        lo_, hi_ = {"int8": (-128, 127), "int16": (-32768, 32767), "int64": (-(2**52), 2**52)}[x_dtype]
+        pick = st.one_of(st.sampled_from([lo_, hi_, 0, lo_ + 1, hi_ - 1]), st.integers(lo_, hi_))
+        xs = sorted(float(v) for v in draw(st.lists(pick, min_size=n, max_size=n)))
+        ys = [k / 2 for k in draw(st.lists(st.integers(-4, 4), min_size=n, max_size=n))]
+    elif mode == "grid":
         xs = sorted(k / 4 for k in draw(st.lists(st.integers(0, 12), min_size=n, max_size=n)))
         ys = [k / 2 for k in draw(st.lists(st.integers(-4, 4), min_size=n, max_size=n))]
     else:
@@ -49,7 +58,7 @@ def _pl_cases(draw):
                      st.sampled_from([-5.0, 5.0, 0.1, 2e3, -2e3]),
                      st.floats(min_value=min(ys) - 1, max_value=max(ys) + 1, allow_nan=False))
     ts = draw(st.lists(cand, min_size=T, max_size=T))
-    return dict(x=xs, y=ys, t=ts, scalar=scalar, mode=mode)
+    return dict(x=xs, y=ys, t=ts, scalar=scalar, mode=mode, x_dtype=x_dtype)
 
 
 def check_solutions(xs, ys, ts, res, ctx):
@@ -134,7 +143,7 @@ def check_pl(case):
     from score_analysis.utils import invert_pl_function
 
     xs, ys, ts = case["x"], case["y"], case["t"]
-    x_a, y_a = np.asarray(xs, dtype=float), np.asarray(ys, dtype=float)
+    x_a, y_a = np.asarray(xs, dtype=case.get("x_dtype") or float), np.asarray(ys, dtype=float)
     x0, y0 = x_a.copy(), y_a.copy()
     t_in = float(ts[0]) if case["scalar"] else np.asarray(ts, dtype=float)
     res = invert_pl_function(x_a, y_a, t_in)
@@ -169,7 +178,7 @@ def _metric(name):
 @st.composite
 def _tam_cases(draw):
     s = draw(gen.score_sets(min_pos=0, min_neg=0, max_size=8, modes=("grid", "dyadic", "distinct", "int"),
-                            max_easy=10))  # one class may be empty
+                            max_easy=10, containers=("f64", "f64", "f64", "neg-int", "pos-int", "neg-f32")))  # one class may be empty
     sc, ec = draw(gen.CONFIG)
     pk = draw(st.sampled_from(["none", "none", "int", "array"]))
     allv = sorted(set(map(float, s["pos"] + s["neg"]))) or [0.0]
@@ -196,7 +205,8 @@ def check_tam(case):
 
     s = case["s"]
     dt = int if s["mode"] == "int" else float
-    o = Scores(np.asarray(s["pos"], dtype=dt), np.asarray(s["neg"], dtype=dt),
+    # (the two classes may be held in different dtypes)
+    o = Scores(gen.build_scores(s, "pos"), gen.build_scores(s, "neg"),
                nb_easy_pos=s["ep"], nb_easy_neg=s["en"], score_class=case["sc"], equal_class=case["ec"])
     out = _tam_compare(case, o, s["pos"], s["neg"], "")
     if case.get("then_shift") and out["labels"] != ["rejected<2values"]:
@@ -205,7 +215,7 @@ def check_tam(case):
         if len(s["pos"]) + len(s["neg"]) > 0:
             o.threshold_at_topr(0.5)
         sh = case["then_shift"]
-        o.neg = o.neg + dt(sh)
+        o.neg = o.neg + o.neg.dtype.type(sh)
         out2 = _tam_compare(case, o, s["pos"], [v + sh for v in s["neg"]], "after o.neg = o.neg + shift: ")
         out["labels"] = out["labels"] + ["reassigned-scores"]
         out["nontrivial"] = out["nontrivial"] or out2["nontrivial"]
@@ -236,7 +246,9 @@ def _tam_compare(case, o, pos, neg, tag):
     if pk == "none":
         P = np.asarray(allv, dtype=float)
     elif pk == "int":
-        P = np.linspace(allv[0], allv[-1], case["points"], endpoint=True)
+        # evenly spaced points spanning the scores, in the precision the scores are held in
+        ends = [a[j] for a in (o.pos, o.neg) if len(a) for j in (0, -1)]
+        P = np.linspace(min(ends), max(ends), case["points"], endpoint=True)
     else:
         P = np.asarray(case["points"], dtype=float)
     f = getattr(Scores, metric) if isinstance(metric, str) else metric
